@@ -333,3 +333,47 @@ Proof.
   rewrite B. cbn [app]. f_equal.
   apply orb_true_iff in M as [M|M]; rewrite ?M; apply N.eqb_eq in M; subst; reflexivity.
 Qed.
+
+(* ---------- region errors, the free DecodeKey, whole responses ---------- *)
+Lemma region_error_decode c k s e phys bs ks :
+  in_range s e (encode_key c k) -> map_opt mem_decode_opt bs = Some ks ->
+  exists s' e', decode_range c s e = ROk s' e' /\ in_range s' e' k /\
+    decode_region_error c (mkre (Some (encode_key c k, mem_enc s, mem_enc e)) (Some (map menc_region phys)) (Some bs))
+    = Some (mkre (Some (k, s', e')) (Some (flat_map (clip_region c) phys)) (Some (dbk c true [] ks))).
+Proof.
+  intros Hin Hb. apply pd_in_region in Hin. destruct (pd_locate c s e k Hin) as (s' & e' & D & Hk & _).
+  exists s', e'. rewrite decode_region_range_enc in D. split; [exact D|]. split; [exact Hk|].
+  unfold decode_region_error. cbn [re_knir re_epoch re_buckets].
+  rewrite decode_encode_key, decode_region_range_enc, D.
+  unfold decode_bucket_keys. rewrite Hb. rewrite (proj1 (scan_exact c phys)). reflexivity.
+Qed.
+
+Lemma region_error_foreign c c2 k s e ep bv : ks_ok c -> ks_ok c2 -> c <> c2 ->
+  decode_region_error c (mkre (Some (encode_key c2 k, s, e)) ep bv) = None.
+Proof.
+  intros H1 H2 Hne. unfold decode_region_error. cbn [re_knir]. rewrite decode_foreign by assumption. reflexivity.
+Qed.
+
+Lemma split_encode c k : split_v2_key (encode_key c k) = Some (prefix c, k).
+Proof.
+  unfold encode_key, prefix.
+  assert (L : length (be 3 (ks_id c)) = 3%nat) by apply be_length.
+  destruct (be 3 (ks_id c)) as [|b1 [|b2 [|b3 [|? ?]]]] eqn:E; cbn in L; try discriminate.
+  cbn [app split_v2_key].
+  replace ((mode_byte (ks_mode c) =? 114) || (mode_byte (ks_mode c) =? 120)) with true by (destruct (ks_mode c); reflexivity).
+  reflexivity.
+Qed.
+
+Lemma decode_fields_own c ks : decode_fields c (map (encode_key c) ks) = Some ks.
+Proof.
+  unfold decode_fields. induction ks as [|k t IH]; [reflexivity|]. cbn [map map_opt]. rewrite decode_encode_key, IH. reflexivity.
+Qed.
+
+(* one key of another keyspace anywhere in a response and nothing of it is handed to the caller *)
+Lemma decode_fields_foreign c c2 k fs : ks_ok c -> ks_ok c2 -> c <> c2 -> In (encode_key c2 k) fs -> decode_fields c fs = None.
+Proof.
+  intros H1 H2 Hne. unfold decode_fields. induction fs as [|f t IH]; intros Hin; [destruct Hin|].
+  cbn [map_opt]. destruct Hin as [->|Hin].
+  - rewrite decode_foreign by assumption. reflexivity.
+  - rewrite (IH Hin). destruct (decode_key c f); reflexivity.
+Qed.
